@@ -98,7 +98,9 @@ class C08(Check):
                   "run() before the agents and one after; agents as scripted stubs; the 1000-entry results log is not modelled (its accessor is "
                   "exercised as a transparent operation). "
                   "Axioms: none (Print Assumptions: closed).")
-    TECHNIQUE = "Coq proof by induction over the operation list with a breaker invariant + vm_compute correspondence against CoherentFeedForwardLoop under a virtual clock"
+    TECHNIQUE = ("Coq proof by induction over the operation list with a breaker invariant; source-to-Gallina translation of the four "
+                 "breaker methods (translators/pyimp.py) proved equal to the model's automaton, with the call sites inside run(); "
+                 "vm_compute correspondence against CoherentFeedForwardLoop under a virtual clock")
     TRUSTED = ["modelled not verified: datetime/timedelta arithmetic is exact integer microsecond arithmetic; the clock is read as one "
                "value before the agents run and one value (>= it for a monotone clock) after the executor returns or raises",
                "the loop's two BioAgents are replaced by scripted stub agents (express() counts the call, consumes `cost` from the shared "
